@@ -233,11 +233,15 @@ func exec(planJSON []byte, run *core.Run) {
 	}
 	// --- disk: restart equivalence ---
 	restart := func() (kem.PrivateKey, bool) {
-		sk2, err := s.UnmarshalBinaryPrivateKey(append([]byte{}, skB...))
+		page := append([]byte{}, skB...)
+		sk2, err := s.UnmarshalBinaryPrivateKey(page)
 		if err != nil {
 			run.Violate(comp+".UnmarshalBinaryPrivateKey", "rejects-own-encoding", "%v", err)
 			return nil, false
 		}
+		// the disk page the key was read into is recycled once the call has returned
+		scribble(page)
+		run.Fault("disk:page-recycled-after-load")
 		b, err := sk2.MarshalBinary()
 		if err != nil || !bytes.Equal(b, skB) {
 			run.Violate(comp+".UnmarshalBinaryPrivateKey", "remarshal-differs", "restored private key marshals differently (err=%v)", err)
@@ -288,11 +292,15 @@ func exec(planJSON []byte, run *core.Run) {
 	var prevAltCT []byte
 	for i, se := range p.Sessions {
 		// initiator: receives the public key as bytes
-		ipk, err := s.UnmarshalBinaryPublicKey(append([]byte{}, pkB...))
+		rbuf := append([]byte{}, pkB...)
+		ipk, err := s.UnmarshalBinaryPublicKey(rbuf)
 		if err != nil {
 			run.Violate(comp+".UnmarshalBinaryPublicKey", "rejects-own-encoding", "%v", err)
 			return
 		}
+		// the receive buffer the key arrived in is reused once the call has returned
+		scribble(rbuf)
+		run.Fault("transport:buffer-reused-after-decode")
 		if b, _ := ipk.MarshalBinary(); !bytes.Equal(b, pkB) || !ipk.Equal(pk) {
 			run.Violate(comp+".UnmarshalBinaryPublicKey", "restored-key-differs", "public key restored from its encoding differs")
 			return
@@ -457,11 +465,11 @@ func exec(planJSON []byte, run *core.Run) {
 			}
 			rr := r1
 			prevAlt, prevAltCT = &rr, append([]byte{}, wire...)
-			// depends on the private key: same key with another rejection value z (last 32 bytes
-			// of the encoded key in ML-KEM / Kyber; s in FrodoKEM sits elsewhere and is skipped)
-			if strings.HasPrefix(p.Scheme, "ML-KEM") || strings.HasPrefix(p.Scheme, "Kyber") {
+			// depends on the private key: same key with another rejection value (z: the last 32
+			// bytes of the encoded key in ML-KEM / Kyber; s: the first 16 bytes in FrodoKEM-640)
+			if zpos := rejectionValuePos(p.Scheme, len(skB)); zpos >= 0 {
 				zb := append([]byte{}, skB...)
-				zb[len(zb)-1] ^= 1
+				zb[zpos] ^= 1
 				skz, err := s.UnmarshalBinaryPrivateKey(zb)
 				if err == nil {
 					rz, ok := decap(skz, wire, false, nil)
@@ -487,11 +495,33 @@ func exec(planJSON []byte, run *core.Run) {
 	}
 }
 
+// rejectionValuePos: a byte of the encoded private key that belongs to the
+// implicit-rejection value only (so altering it leaves every honest secret unchanged).
+func rejectionValuePos(scheme string, skLen int) int {
+	switch {
+	case strings.Contains(scheme, "-X") || strings.HasPrefix(scheme, "X") || strings.HasPrefix(scheme, "P256") || strings.HasPrefix(scheme, "HPKE"):
+		return -1 // hybrids: which half was altered decides whether the value is used
+	case strings.HasPrefix(scheme, "ML-KEM"), strings.HasPrefix(scheme, "Kyber"):
+		return skLen - 1
+	case strings.HasPrefix(scheme, "FrodoKEM"):
+		return 0
+	}
+	return -1
+}
+
 func sh(b []byte) string {
 	if len(b) > 40 {
 		return fmt.Sprintf("%x…(%d bytes)", b[:40], len(b))
 	}
 	return fmt.Sprintf("%x", b)
+}
+
+// scribble overwrites a buffer the library was handed and has returned from:
+// a decoder must not retain its input (encoding.BinaryUnmarshaler contract).
+func scribble(b []byte) {
+	for i := range b {
+		b[i] = ^b[i] ^ byte(i*29)
+	}
 }
 
 func main() {
